@@ -243,6 +243,7 @@ func pcCompare(f *pcF, classify func(*pcAtom) string, want func(env map[string]b
 			continue
 		}
 		got := f.eval(env, map[*pcF]bool{})
+		named["\x00actual"] = got
 		if got != want(named) {
 			var parts []string
 			for i, a := range atoms {
@@ -1699,4 +1700,22 @@ func pcImplies(f *pcF, classify func(*pcAtom) string, req func(env map[string]bo
 		}
 	}
 	return ""
+}
+
+// pcCompareWhere is pcCompare restricted to the assignments care() selects.
+func pcCompareWhere(f *pcF, classify func(*pcAtom) string, care, want func(env map[string]bool) bool) string {
+	return pcCompare(pcAndF(f, pcT), classify, nil2(care, want, f))
+}
+
+// nil2 builds a want that agrees with f wherever care() is false.
+func nil2(care, want func(env map[string]bool) bool, f *pcF) func(env map[string]bool) bool {
+	return func(env map[string]bool) bool {
+		if care(env) {
+			return want(env)
+		}
+		if v, ok := env["\x00actual"]; ok {
+			return v
+		}
+		return false
+	}
 }
